@@ -28,7 +28,8 @@ var c18ArgLists = []c18Args{
 	{`, 1.5, "ab"`, []refsem.Value{refsem.Num(1.5), refsem.Str("ab")}},
 	{`, "abcd", "e"`, []refsem.Value{refsem.Str("abcd"), refsem.Str("e")}},
 	{`, [1, "a"]`, []refsem.Value{refsem.NewArr(refsem.Num(1), refsem.Str("a"))}},
-	{`, "é"`, []refsem.Value{refsem.Str("é")}},
+	// fewer characters than bytes: a width between the two counts tells padding by bytes from padding by characters
+	{`, "äö", "é"`, []refsem.Value{refsem.Str("äö"), refsem.Str("é")}},
 	{`, null`, []refsem.Value{refsem.Null()}},
 	{`, -12.25, "x", true`, []refsem.Value{refsem.Num(-12.25), refsem.Str("x"), refsem.Bool(true)}},
 	{`, true`, []refsem.Value{refsem.Bool(true)}},
